@@ -479,6 +479,7 @@ type varOpts struct {
 	maxGenes     int
 	smallMutPool bool
 	sameName     bool // now and then two features of one name with another feature between them, all over the same codons
+	sameNameLoci bool // now and then a second feature of the same name at another locus holding a copy of the first one's bases
 }
 
 func genVarCase(r *RNG, id string, o varOpts) *Case {
@@ -515,6 +516,29 @@ func genVarCase(r *RNG, id string, o varOpts) *Case {
 					c.Tag("same-name-apart")
 				}
 			}
+		}
+	}
+	// two loci of one gene name (a duplicated gene): the second locus is a copy of the first, and queries carry the same
+	// changes in both - so the same residue change is reported twice, for two different places in the genome
+	twin := [3]int{-1, -1, 0} // start of locus 1, start of locus 2 (1-based), length
+	if o.sameNameLoci && r.Chance(1, 6) && len(genes) > 0 && genes[0].strand > 0 && len(genes[0].segs) == 1 && genes[0].codonStart == 1 {
+		g := genes[0]
+		a, b := g.segs[0][0], g.segs[0][1]
+		ln := b - a + 1
+		var starts []int
+		for st := 1; st+ln-1 <= L; st++ {
+			if st+ln-1 < a || st > b {
+				starts = append(starts, st)
+			}
+		}
+		if len(starts) > 0 && ln >= 6 {
+			st := starts[r.Intn(len(starts))]
+			gb := []byte(genome)
+			copy(gb[st-1:st-1+ln], gb[a-1:b])
+			genome = string(gb)
+			genes = append(genes, gene{name: g.name, strand: 1, codonStart: 1, gffNamed: true, gffID: true, gffType: "CDS", gbForm: "range", segs: [][2]int{{st, st + ln - 1}}})
+			twin = [3]int{a, st, ln}
+			c.Tag("same-name-two-loci")
 		}
 	}
 	format := "gb"
@@ -568,6 +592,26 @@ func genVarCase(r *RNG, id string, o varOpts) *Case {
 	refmode := r.PickStr([]string{"msa", "msa", "stdin", "ann"})
 	withIns := o.withIns && refmode != "ann"
 	m := buildMSA(r, genome, r.Range(1, 6), withIns, o.gapRich)
+	if twin[0] > 0 {
+		// most queries carry, at the second locus, exactly what they carry at the first
+		var colOf []int // alignment column of reference position p (1-based) at colOf[p]
+		colOf = append(colOf, -1)
+		for ci := 0; ci < len(m.refRow); ci++ {
+			if m.refRow[ci] != '-' {
+				colOf = append(colOf, ci)
+			}
+		}
+		for qi := range m.rows {
+			if r.Chance(1, 4) {
+				continue
+			}
+			row := []byte(m.rows[qi])
+			for k := 0; k < twin[2]; k++ {
+				row[colOf[twin[1]+k]] = row[colOf[twin[0]+k]]
+			}
+			m.rows[qi] = string(row)
+		}
+	}
 	names, rows := m.names, m.rows
 	switch refmode {
 	case "msa":
